@@ -173,6 +173,8 @@ def session_cadence(rep, w, rng, n, sd):
     nobs = 0
     caps = {"momentum": 41, "sma": 2, "vol": 42}
     for c, exp, got in zip(cfgs, exps, outs):
+        if exp is None:
+            continue
         feeds = exp[8]
         nclose = len([1 for t, _q in (max(feeds, key=len) if feeds else [])])
         for n_, a in enumerate(sr.ASSETS, 1):
